@@ -135,6 +135,7 @@ type Harness struct {
 	progress atomic.Int64
 	ticks    int
 
+	seen   map[string]bool
 	viol   []core.Violation
 	faults map[string]int
 	probes map[string]int
@@ -276,6 +277,7 @@ func (h *Harness) setup() error {
 
 // prepare builds request data and the submitted-item table.
 func (h *Harness) prepare() {
+	h.seen = map[string]bool{}
 	h.ownerOf = map[int64]*ReqState{}
 	h.expCount = map[int64]int{}
 	h.inflight = map[string]int{}
